@@ -103,7 +103,7 @@ fn case(t0: &mut Tape, w: &Worker) -> CaseResult {
     inproc::init_global_config();
     let mut ot = t0.fork(64);
     let mut out = CaseOut::default();
-    let mut cs = gen::gen_conf_stream(t0, &ConfOpts { max_links: 6, min_links: 2, max_hbfs: 3, big_16: 1, ..Default::default() });
+    let mut cs = gen::gen_conf_stream(t0, &ConfOpts { max_links: 6, min_links: 2, max_hbfs: 3, big_16: 1, allow_fatal_lanes: true, ..Default::default() });
     let corrupted = ot.chance(3, 4);
     if corrupted {
         let mut mt = t0.fork(400);
